@@ -58,6 +58,7 @@ func next(a string) string {
 func third(a string) string { return next(next(a)) }
 
 var classLabel = [2]string{"c1", "c2"}
+
 // on-chain ids where one is a proper prefix of the other (key layouts that forget a terminator mix them up)
 var classID = [2]string{"class1", "class11"}
 
@@ -766,7 +767,7 @@ func Variants() []Variant {
 func Parts() []mc.Part {
 	var ps []mc.Part
 	for _, v := range Variants() {
-		ps = append(ps, mc.ExplorePartC(v.Name, New(v), depthQuick, depthThorough, false, rule,
+		ps = append(ps, mc.ExplorePartC(v.Name, mc.WithRestart(New(v), "nft"), depthQuick, depthThorough, false, rule,
 			&mc.ConfOpts{Stores: []string{"nft"}, SkipDenoms: map[string]bool{"stake": true}, MaxPaths: 100}))
 	}
 	return ps
